@@ -412,7 +412,13 @@ def replay_job(path):
     exe = os.path.join(VERIF, j["exe"])
     if not os.path.exists(exe):
         raise HarnessFailure("replay needs %s: run the check once to rebuild it" % exe)
-    job = Job(exe, j["args"], j["variant"], 1800, j.get("env"), j.get("tag"), prop=rp["property"])
+    args = list(j["args"])
+    for i, a in enumerate(args[:-1]):
+        if a == "--dir":
+            # scratch directories of the original run are gone: give the replay a fresh one
+            args[i + 1] = os.path.join(workdir(), "replay")
+            os.makedirs(args[i + 1], exist_ok=True)
+    job = Job(exe, args, j["variant"], 1800, j.get("env"), j.get("tag"), prop=rp["property"])
     _run_one(job)
     col = Collector(rp["property"])
     col.absorb(job)
